@@ -6,4 +6,4 @@ D=$1
 rm -rf $D/repo && mkdir -p $D/repo
 rsync -a --exclude .git /repo/ $D/repo/
 mkdir -p $D/repo/simrt && cp /verif/simrt/*.go $D/repo/simrt/
-$D/simgen $D/repo
+cp -r /verif/overlay/. $D/repo/ 2>/dev/null; $D/simgen $D/repo
